@@ -109,7 +109,7 @@ pub fn scenario(name: &str, params: &Value) -> Scenario {
             if outstanding(&s.m).len() < (r as usize + 2) {
                 e.extend(specs.iter().cloned().map(Ev::Start));
             }
-            e.extend(broker_acks(s, true, false));
+            e.extend(broker_acks_ext(s, true, false, true));
             e
         };
         drive(&mut sys, chz, depth, &devs, &evs);
